@@ -120,6 +120,7 @@ func selfBench(boxID string, limit int, prof string) {
 //	Y delay oldest   V duplicate the oldest MsgSnap (else the oldest message), the copy is delayed
 //	Z release the oldest delayed message
 //	L<n> lag   A<n> apply the held page   N<n> unlag   F<n><v> proposeConf at n, variant v (index into ccNames)
+//	G<n> plag (persist lag)   B<n> persist the held Ready   M<n> unplag
 //	X<k> / D<k> with a digit: drop / deliver the k-th pooled message (0 = oldest)
 //	W print the state   J print the path executed so far as JSON (for a replay file)
 //
@@ -215,6 +216,12 @@ func scenario(cfgName string, toks []string) {
 			step(Event{K: evApply, N: n})
 		case 'N':
 			step(Event{K: evUnlag, N: n})
+		case 'G':
+			step(Event{K: evPLag, N: n})
+		case 'B':
+			step(Event{K: evPersist, N: n})
+		case 'M':
+			step(Event{K: evUnplag, N: n})
 		case 'F':
 			step(Event{K: evConf, N: n, A: uint16(t[2] - '0')})
 		case 'W':
